@@ -1056,13 +1056,15 @@ func (d *indexData) newMatchTree(q query.Q, opt matchTreeOpt) (matchTree, error)
 		}, err
 
 	case *query.Type:
-		if s.Type != query.TypeFileName {
-			break
-		}
-
 		ct, err := d.newMatchTree(s.Child, opt)
 		if err != nil {
 			return nil, err
+		}
+
+		if s.Type != query.TypeFileName {
+			// type:filematch (the default) and type:repo do not restrict which
+			// documents of a shard match.
+			return ct, nil
 		}
 
 		return &fileNameMatchTree{
